@@ -99,5 +99,28 @@ for case in payload.get("pipe_cases", []):
     except Exception as e:
         import traceback
         pipe_out.append({"ok": False, "error": "%s: %s" % (type(e).__name__, e), "tb": traceback.format_exc()[-1500:], "obs": obs})
+
+# ---- scale: very long candidate lists / very many tracked combinations (ids instead of tuples on the wire) ----
+big_out = []
+for case in payload.get("big_cases", []):
+    cr.GLOBAL_PRIOR_COMB_COUNTS.clear()
+    lists, ids, off = {}, {}, 0
+    for name in sorted(case["lists"]):
+        n = case["lists"][name]
+        L = [("%s%d" % (name, i), "label" if name == "x" else "%s_other" % name) for i in range(n)]
+        lists[name] = L
+        for i, k in enumerate(L):
+            ids[k] = off + i
+        off += n
+    obs = []
+    try:
+        for name, cap in case["ops"]:
+            args = types.SimpleNamespace(combination_number_upper_bound=cap)
+            sel = cr.prior_combinations_sample(list(lists[name]), args)
+            obs.append({"sel": [ids.get(tuple(k), -1) for k in sel],
+                        "counter": [[ids.get(k, -1), int(v)] for k, v in cr.GLOBAL_PRIOR_COMB_COUNTS.items() if v]})
+        big_out.append({"ok": True, "obs": obs})
+    except Exception as e:
+        big_out.append({"ok": False, "error": "%s: %s" % (type(e).__name__, e), "obs": obs})
 cr.GLOBAL_PRIOR_COMB_COUNTS.clear()
-print("@@RESULT " + json.dumps({"results": out, "pipe": pipe_out}))
+print("@@RESULT " + json.dumps({"results": out, "pipe": pipe_out, "big": big_out}))
